@@ -116,6 +116,8 @@ json_endpoints! {
     fn auth_cookie(auth_: BearerToken) -> BTreeSet<String>;
     fn body_optional(body: Option<Payload>) -> Option<Payload>;
     fn body_alias_opt(body: OptStrAlias) -> OptStrAlias;
+    fn limit_optional(body: Option<Payload>) -> Option<Payload>;
+    fn limit_alias_opt(body: OptStrAlias) -> OptStrAlias;
     fn body_collections(body: BTreeMap<String, Vec<i32>>) -> BTreeMap<String, Vec<i32>>;
     fn body_union(body: Choice) -> Choice;
     fn body_double_set(body: BTreeSet<DoubleKey>) -> BTreeSet<DoubleKey>;
@@ -140,10 +142,12 @@ json_endpoints! {
     fn limit_b(body: String) -> String;
     fn kib_body(body: String) -> String;
     fn safe_mix(auth_: BearerToken, safe_path: String, unsafe_path: String, safe_query: String, unsafe_query: String, safe_header: String, unsafe_header: String, dnl_query: Option<String>, enum_query: Option<Color>, unsafe_enum_query: Option<Color>) -> ();
+    fn tag_mix(plain_path: String, retry_query: String, unsafe_tag_query: String, upper_header: String, marker_alike: String, real_safe: String) -> ();
     fn safe_body(id: i32, body: Payload) -> i32;
     fn same_ids(path_word: String, page_token: String, page_size: Option<i32>, secret_word: String, trace_id: String, unsafe_header: Option<i32>) -> ();
     fn enum_map_body(id: i32, body: BTreeMap<Color, StrAlias>) -> ();
     fn safe_enum_map_body(id: i32, body: BTreeMap<Color, Vec<Color>>) -> ();
+    fn out_of_order(third: i32, second: String, q: Option<String>, first: String) -> String;
     fn noop() -> ();
 }
 
